@@ -496,3 +496,311 @@ theorem seq_run_spec (cf : Conf) (k : Kind) (r : Nat) (hb : NoBuild cf r) :
         exact ⟨i1, i2, i3, fun hfin hin => i4 hfin (n3 hin)⟩
 
 end RB.Sched
+
+namespace RB.Sched
+open RB.Term
+
+/-! ### half steps vs full steps -/
+
+theorem apply_head (c : Cfg) (t : St) (o : Outcome) :
+    (apply c t o).2 = Ev.start (t.maxInv + 1) :: (apply c t o).2.drop 1 := by
+  unfold apply; split <;> simp
+
+/-- the start and the end of a process together are one `execute_run` -/
+theorem halfStep_twice (rc : RunCfg) (s : RunSt) (hp : s.pending = false) (ha : rc.adapterKnown = true) :
+    (halfStep rc (halfStep rc s).1).1 = (runStep rc s).1 ∧
+    (halfStep rc s).2 ++ (halfStep rc (halfStep rc s).1).2 = (runStep rc s).2 := by
+  by_cases ht : shouldTerminate rc.cfg s.t = true
+  · simp [halfStep, runStep, ha, hp, ht]
+  · have ht' : shouldTerminate rc.cfg s.t = false := by simpa using ht
+    simp only [halfStep, runStep, ha, hp, ht', Bool.true_eq_false, Bool.false_eq_true, if_false, if_true]
+    refine ⟨?_, ?_⟩
+    · cases s; simp_all
+    · simp only [List.singleton_append]
+      exact (apply_head rc.cfg s.t _).symm
+
+theorem runStep_pending (rc : RunCfg) (s : RunSt) : (runStep rc s).1.pending = s.pending := by
+  unfold runStep; split
+  · rfl
+  · split <;> rfl
+
+theorem solo_runSys_pending (cf : Conf) (r : Nat) (n : Nat) (s : RunSt) :
+    (solo (runSys cf) r n s).1.pending = s.pending := by
+  induction n generalizing s with
+  | zero => rfl
+  | succ n ih =>
+    rw [solo_succ, ih]
+    exact runStep_pending _ _
+
+/-- `2k` half steps of a run alone are `k` full steps -/
+theorem solo_half_double (cf : Conf) (r : Nat) (ha : (cf.run r).adapterKnown = true) (k : Nat) (s : RunSt)
+    (hp : s.pending = false) :
+    solo (halfSys cf) r (2 * k) s = solo (runSys cf) r k s := by
+  induction k generalizing s with
+  | zero => rfl
+  | succ k ih =>
+    have h2 : 2 * (k + 1) = (2 * k + 1) + 1 := by omega
+    rw [h2, solo_succ, solo_succ, solo_succ]
+    have hstepH : ∀ x, (halfSys cf).step r x = halfStep (cf.run r) x := fun _ => rfl
+    have hstepF : (runSys cf).step r s = runStep (cf.run r) s := rfl
+    obtain ⟨e1, e2⟩ := halfStep_twice (cf.run r) s hp ha
+    rw [hstepH, hstepH, hstepF, e1]
+    have hp' : (runStep (cf.run r) s).1.pending = false := by rw [runStep_pending]; exact hp
+    rw [ih _ hp']
+    simp only [← List.append_assoc, e2]
+
+/-- in between (after the start, before the end of a process) the run is not done -/
+theorem solo_half_odd_not_done (cf : Conf) (r : Nat) (ha : (cf.run r).adapterKnown = true) (k : Nat) (s : RunSt)
+    (hp : s.pending = false) (hnd : runDone (cf.run r) (solo (runSys cf) r k s).1 = false) :
+    halfDone (cf.run r) (solo (halfSys cf) r (2 * k + 1) s).1 = false := by
+  have hsplit : ∀ (n : Nat) (x : RunSt), (solo (halfSys cf) r (n + 1) x).1
+      = ((halfSys cf).step r (solo (halfSys cf) r n x).1).1 := by
+    intro n
+    induction n with
+    | zero => intro x; rfl
+    | succ n ih => intro x; rw [solo_succ, ih]; rfl
+  rw [hsplit, solo_half_double cf r ha k s hp]
+  have hpk := solo_runSys_pending cf r k s
+  rw [hp] at hpk
+  have hterm : shouldTerminate (cf.run r).cfg (solo (runSys cf) r k s).1.t = false := by
+    simpa [runDone, ha] using hnd
+  simp [halfSys, halfStep, ha, hpk, hterm, halfDone]
+
+theorem halfDone_of_not_pending (rc : RunCfg) (s : RunSt) (hp : s.pending = false) :
+    halfDone rc s = runDone rc s := by
+  simp [halfDone, hp]
+
+end RB.Sched
+
+namespace RB.Sched
+open RB.Term
+
+/-! ### runs whose own builds succeed -/
+
+def noBuildEv : Ev → Bool
+  | .build _ => false
+  | _ => true
+
+/-- the events of run `r` that are not build commands -/
+def projR (r : Nat) (tr : List (Nat × Ev)) : List Ev := (proj r tr).filter noBuildEv
+
+/-- every build command of `r` succeeds (or `-B`) -/
+def BuildsOk (cf : Conf) (r : Nat) : Prop :=
+  cf.doBuilds = false ∨ ∀ b ∈ (cf.run r).builds, cf.buildOk b = true
+
+/-- the build table only says "failed" of builds that do fail -/
+def BstSound (cf : Conf) (g : G) : Prop := ∀ b, g.bst b = some false → cf.buildOk b = false
+
+theorem NoBuild.buildsOk {cf : Conf} {r : Nat} (h : NoBuild cf r) : BuildsOk cf r := by
+  rcases h with h | h
+  · exact Or.inl h
+  · exact Or.inr (by rw [h]; simp)
+
+theorem doBuilds_sound (buildOk : Nat → Bool) (bst : Nat → Option Bool) (bs : List Nat)
+    (h : ∀ b, bst b = some false → buildOk b = false) :
+    ∀ b, (doBuilds buildOk bst bs).1 b = some false → buildOk b = false := by
+  induction bs generalizing bst with
+  | nil => simpa [doBuilds] using h
+  | cons i is ih =>
+    unfold doBuilds
+    split
+    · exact ih bst h
+    · exact h
+    · split
+      · rename_i hok
+        apply ih
+        intro b hb
+        by_cases e : b = i
+        · subst e; simp [updB] at hb
+        · simp only [updB, e, if_false] at hb; exact h b hb
+      · rename_i hok
+        intro b hb
+        by_cases e : b = i
+        · subst e; simpa using hok
+        · simp only [updB, e, if_false] at hb; exact h b hb
+
+theorem doBuilds_ok (buildOk : Nat → Bool) (bst : Nat → Option Bool) (bs : List Nat)
+    (h : ∀ b, bst b = some false → buildOk b = false) (hok : ∀ b ∈ bs, buildOk b = true) :
+    (doBuilds buildOk bst bs).2.1 = true := by
+  induction bs generalizing bst with
+  | nil => simp [doBuilds]
+  | cons i is ih =>
+    have hi : buildOk i = true := hok i (by simp)
+    have his : ∀ b ∈ is, buildOk b = true := fun b hb => hok b (by simp [hb])
+    unfold doBuilds
+    split
+    · exact ih bst h his
+    · rename_i hf; have := h i hf; rw [hi] at this; exact absurd this (by simp)
+    · simp only [hi, if_true]
+      apply ih _ _ his
+      intro b hb
+      by_cases e : b = i
+      · subst e; simp [updB] at hb
+      · simp only [updB, e, if_false] at hb; exact h b hb
+
+theorem runStep_noBuildEv (rc : RunCfg) (s : RunSt) : (runStep rc s).2.filter noBuildEv = (runStep rc s).2 := by
+  unfold runStep
+  split
+  · rfl
+  · split
+    · rfl
+    · simp only [apply]; split <;> simp [noBuildEv]
+
+theorem filter_build_map (l : List Nat) : (l.map Ev.build).filter noBuildEv = [] := by
+  induction l with
+  | nil => rfl
+  | cons a l ih => simp [noBuildEv, ih]
+
+theorem execRun_bstSound (cf : Conf) (g : G) (p : Nat) (h : BstSound cf g) : BstSound cf (execRun cf g p).g := by
+  unfold execRun
+  simp only
+  split
+  · exact h
+  · split
+    · exact doBuilds_sound cf.buildOk g.bst _ h
+    · exact doBuilds_sound cf.buildOk g.bst _ h
+
+theorem nextOf_bstSound (cf : Conf) (k : Kind) (tasks : List Nat) (p : Nat) (a : StepRes)
+    (h : BstSound cf a.g) : BstSound cf (nextOf cf k tasks p a).1 := by
+  unfold nextOf
+  split
+  · exact h
+  · split
+    · split
+      · intro b hb
+        rw [(withoutMissing_spec cf p a.g (tasks.erase p)).2.2.2.2.2] at hb
+        exact h b hb
+      · exact h
+    · exact h
+
+theorem execRun_buildsOk (cf : Conf) (g : G) (r : Nat) (hb : BuildsOk cf r) (hs : BstSound cf g) :
+    (execRun cf g r).g.rs = upd g.rs r (runStep (cf.run r) (g.rs r)).1 ∧
+    (execRun cf g r).evs.filter noBuildEv = (runStep (cf.run r) (g.rs r)).2 ∧
+    (execRun cf g r).completed = runDone (cf.run r) (runStep (cf.run r) (g.rs r)).1 ∧
+    (execRun cf g r).failedBuilding = false := by
+  unfold execRun
+  simp only
+  split
+  · exact ⟨rfl, runStep_noBuildEv _ _, rfl, rfl⟩
+  · rename_i hc
+    have hdo : cf.doBuilds = true := by
+      cases hd : cf.doBuilds
+      · exact absurd (Or.inr (Or.inl hd)) hc
+      · rfl
+    have hall : ∀ b ∈ (cf.run r).builds, cf.buildOk b = true := by
+      rcases hb with hb | hb
+      · rw [hdo] at hb; exact absurd hb (by simp)
+      · exact hb
+    have hok := doBuilds_ok cf.buildOk g.bst (cf.run r).builds hs hall
+    simp only [hok, Bool.true_eq_false, if_false, true_and, and_true]
+    rw [List.filter_append, filter_build_map, List.nil_append, runStep_noBuildEv]
+
+theorem projR_append (r : Nat) (a b : List (Nat × Ev)) : projR r (a ++ b) = projR r a ++ projR r b := by
+  simp [projR, proj_append]
+
+/-- step on `r` itself when its own builds succeed -/
+theorem nextOf_self_builds (cf : Conf) (k : Kind) (g : G) (tasks : List Nat) (r : Nat) (hb : BuildsOk cf r)
+    (hsound : BstSound cf g) (hnd : tasks.Nodup) (hr : r ∈ tasks) (hns : NoSharedNF cf r g) :
+    let nx := nextOf cf k tasks r (execRun cf g r)
+    nx.1.rs r = (runStep (cf.run r) (g.rs r)).1 ∧ NoSharedNF cf r nx.1 ∧
+    (r ∈ nx.2 ↔ runDone (cf.run r) (runStep (cf.run r) (g.rs r)).1 = false) := by
+  intro nx
+  obtain ⟨e1, e2, e3, e4⟩ := execRun_buildsOk cf g r hb hsound
+  have hself : (execRun cf g r).g.rs r = (runStep (cf.run r) (g.rs r)).1 := by rw [e1, upd_same]
+  have hns1 : NoSharedNF cf r (execRun cf g r).g := by
+    intro q hq he
+    rw [execRun_other cf g r q hq]; exact hns q hq he
+  have hnotin : r ∉ tasks.erase r := fun h => ((List.Nodup.mem_erase_iff hnd).mp h).1 rfl
+  show (nextOf cf k tasks r (execRun cf g r)).1.rs r = _ ∧ NoSharedNF cf r (nextOf cf k tasks r (execRun cf g r)).1 ∧
+       (r ∈ (nextOf cf k tasks r (execRun cf g r)).2 ↔ _)
+  unfold nextOf
+  simp only [e4, Bool.false_eq_true, if_false, e3]
+  cases hd : runDone (cf.run r) (runStep (cf.run r) (g.rs r)).1
+  · simp only [Bool.false_eq_true, if_false]
+    exact ⟨hself, hns1, by simp [mem_requeue k tasks r r hr]⟩
+  · simp only [if_true]
+    split
+    · obtain ⟨i1, i2, i3, i4, i5, i6⟩ := withoutMissing_spec cf r (execRun cf g r).g (tasks.erase r)
+      refine ⟨by rw [i2 r (Or.inl hnotin)]; exact hself, NoSharedNF_of_markOnly cf r _ _ hns1 i1, ?_⟩
+      simp
+      exact fun h => hnotin (i5.subset h)
+    · exact ⟨hself, hns1, by simp [hnotin]⟩
+
+/-- `seq_run_spec` for a run whose own builds succeed: its events other than
+build commands, and its final state, are those of the run alone -/
+theorem seq_run_spec_builds (cf : Conf) (k : Kind) (r : Nat) (hb : BuildsOk cf r) :
+    ∀ (cs : List Nat) (g : G) (tasks : List Nat), tasks.Nodup → NoSharedNF cf r g → BstSound cf g →
+      (r ∈ tasks → runDone (cf.run r) (g.rs r) = false) →
+      projR r (seqLoop cf k g tasks cs).trace
+          = (solo (runSys cf) r ((seqLoop cf k g tasks cs).picks.count r) (g.rs r)).2 ∧
+      (seqLoop cf k g tasks cs).g.rs r
+          = (solo (runSys cf) r ((seqLoop cf k g tasks cs).picks.count r) (g.rs r)).1 ∧
+      (∀ j, j < (seqLoop cf k g tasks cs).picks.count r →
+          runDone (cf.run r) (solo (runSys cf) r j (g.rs r)).1 = false) ∧
+      ((seqLoop cf k g tasks cs).finished = true → r ∈ tasks →
+          runDone (cf.run r) ((seqLoop cf k g tasks cs).g.rs r) = true) := by
+  intro cs
+  induction cs with
+  | nil =>
+    intro g tasks _ _ _ _
+    cases tasks <;> simp [seqLoop, solo, proj, projR]
+  | cons c cs ih =>
+    intro g tasks hnd hns hsound hd0
+    cases tasks with
+    | nil => simp [seqLoop, solo, proj, projR]
+    | cons t ts =>
+      have hpm := pick_mem k t ts c
+      simp only [seqLoop]
+      generalize hp : pick k (t :: ts) c = p at hpm
+      have hsound' : BstSound cf (nextOf cf k (t :: ts) p (execRun cf g p)).1 :=
+        nextOf_bstSound cf k (t :: ts) p _ (execRun_bstSound cf g p hsound)
+      by_cases hpr : p = r
+      · subst hpr
+        obtain ⟨n1, n2, n3⟩ := nextOf_self_builds cf k g (t :: ts) p hb hsound hnd hpm hns
+        obtain ⟨e1, e2, e3, e4⟩ := execRun_buildsOk cf g p hb hsound
+        have hnd' := nextOf_nodup cf k (t :: ts) p (execRun cf g p) hnd
+        have ih' := ih (nextOf cf k (t :: ts) p (execRun cf g p)).1 (nextOf cf k (t :: ts) p (execRun cf g p)).2
+          hnd' n2 hsound' (by rw [n1]; exact n3.mp)
+        obtain ⟨i1, i2, i3, i4⟩ := ih'
+        rw [n1] at i1 i2 i3
+        have hstep : (runSys cf).step p (g.rs p) = runStep (cf.run p) (g.rs p) := rfl
+        have hproj : projR p ((execRun cf g p).evs.map (fun e => (p, e))) = (runStep (cf.run p) (g.rs p)).2 := by
+          simp only [projR, proj_tag_same]; exact e2
+        simp only [List.count_cons_self, solo_succ, projR_append, hproj, hstep]
+        refine ⟨by rw [i1], i2, ?_, ?_⟩
+        · intro j hj
+          cases j with
+          | zero => simpa [solo] using hd0 hpm
+          | succ j =>
+            rw [solo_succ, hstep]
+            exact i3 j (by omega)
+        · intro hfin _
+          by_cases hin : p ∈ (nextOf cf k (t :: ts) p (execRun cf g p)).2
+          · exact i4 hfin hin
+          · have hcount : (seqLoop cf k (nextOf cf k (t :: ts) p (execRun cf g p)).1
+                (nextOf cf k (t :: ts) p (execRun cf g p)).2 cs).picks.count p = 0 := by
+              rw [List.count_eq_zero]
+              exact fun h => hin (seqLoop_picks_subset _ _ _ _ _ p h)
+            rw [i2, hcount]
+            simp only [solo]
+            have : ¬ runDone (cf.run p) (runStep (cf.run p) (g.rs p)).1 = false := fun h => hin (n3.mpr h)
+            simpa using this
+      · have hrp : r ≠ p := fun e => hpr e.symm
+        obtain ⟨n1, n2, n3⟩ := nextOf_other cf k g (t :: ts) p r hrp hns
+        have hnd' := nextOf_nodup cf k (t :: ts) p (execRun cf g p) hnd
+        have hsub := nextOf_subset cf k (t :: ts) p (execRun cf g p) hpm
+        have ih' := ih (nextOf cf k (t :: ts) p (execRun cf g p)).1 (nextOf cf k (t :: ts) p (execRun cf g p)).2
+          hnd' n2 hsound' (by rw [n1]; exact fun h => hd0 (hsub r h))
+        obtain ⟨i1, i2, i3, i4⟩ := ih'
+        rw [n1] at i1 i2 i3
+        have hc : (p :: (seqLoop cf k (nextOf cf k (t :: ts) p (execRun cf g p)).1
+                (nextOf cf k (t :: ts) p (execRun cf g p)).2 cs).picks).count r
+            = (seqLoop cf k (nextOf cf k (t :: ts) p (execRun cf g p)).1
+                (nextOf cf k (t :: ts) p (execRun cf g p)).2 cs).picks.count r := by
+          simp [hpr]
+        have hproj : projR r ((execRun cf g p).evs.map (fun e => (p, e))) = [] := by
+          simp [projR, proj_tag_other r p hpr]
+        simp only [hc, projR_append, hproj, List.nil_append]
+        exact ⟨i1, i2, i3, fun hfin hin => i4 hfin (n3 hin)⟩
+
+end RB.Sched
